@@ -153,5 +153,35 @@ pub fn run(ctx: &Ctx, st: &mut Stats) {
         st.count("sweep_sites");
         st.nontrivial_by_construction((total - 2) as u64);
     }
+    // RA-wrap seeking: the reference ephemeris locates, for a March date, the GMT offset at which the Sun's right
+    // ascension at local midnight crosses 360 -> 0; a fine grid of offsets around it (RA steps of ~2e-4 deg) puts
+    // one of the library's three interpolation points within a hair of the wrap, on either side
+    let nseek = ctx.quota(160, 8_000);
+    let mut rs = Rng::new(ctx.seed, 132, ctx.shard);
+    let mut done = 0u64;
+    let mut tries = 0u64;
+    while done < nseek && tries < nseek * 40 {
+        tries += 1;
+        let y = rs.int(1600, 2399) as i32;
+        let date = ymd(y, 3, rs.int(18, 23) as u32);
+        let lon = rs.range(-178.0, 178.0);
+        let nom = lon / 15.0;
+        let (glo, ghi) = ((nom - 2.0).max(-12.0), (nom + 2.0).min(12.0));
+        let Some(g0) = crate::oracle::ra_wrap_gmt(date, glo, ghi) else { continue };
+        done += 1;
+        let la = rs.range(-45.0, 45.0);
+        let method = *rs.pick(&ANGLE_METHODS);
+        let el = gen::any_elev(&mut rs);
+        for k in -100..=100 {
+            let g = g0 + k as f64 * 0.004;
+            if !(-12.0..=12.0).contains(&g) || (g - nom).abs() > 2.0 {
+                continue;
+            }
+            let c = Case { site: Site::new(la, lon, el, g), method, start: d2s(from_ce(ce(date) - 2)), len: 5 };
+            check(ctx, st, &c);
+        }
+        st.count("ra_wrap_seeks(201 GMT offsets around the wrap, 5 dates each)");
+        st.nontrivial_by_construction(3 * 201);
+    }
     st.extra.insert("rule".into(), json!("every run of three consecutive dates 1600..2399 per sweep site (site-triples distinct by construction); decided = (triple, prayer) pairs with all three times present and off the midnight seam"));
 }
